@@ -35,6 +35,9 @@ def plan(tier, seed):
         cases += [dict(c, mode="single") for c in b3 + b4]
         nstates += s3 + s4
         ntrans += t3 + t4
+    for c in base:
+        if len(c["rules"]) <= 3 or c["name"].startswith("sharp"):
+            cases.append(dict(c, mode="signed"))
     nchain = 0
     for c in base:
         if len(c["rules"]) <= p["chain_depth"] or c["name"].startswith("sharp"):
@@ -92,6 +95,53 @@ def run_single(case):
         r["counters"]["executions"] += r2["counters"]["executions"]
         r["counters"]["shared_weight_duplicates"] = 1
     return r
+
+
+def run_signed(case):
+    """Real weights of both signs with exact cancellation (dyadic floats are exact): every
+    transformation must still preserve every string weight (sums passing through 0.0)."""
+    import itertools as _it
+    from vf.props.C08 import finite_derivations
+    from genlm.grammar.semiring import Float
+
+    rules = case_rules(case)
+    V = case_terms(case)
+    n = len(rules)
+    from vf.props.C08 import no_recursion
+
+    if not n or not no_recursion(rules, V):  # a useless weight-one cycle would make the library's closure diverge
+        return {"evals": 0, "nontrivial": 0, "fails": [], "counters": {"signed_skipped_recursive": 1}}
+    fails = []
+    evals = 0
+    k3 = min(3, n)
+    strs = list(strings_upto(sorted(V), 2 if len(V) > 2 else 3))
+    for wperm in sorted(set(_it.permutations([1.0, -1.0, 0.5][:k3]))):
+        W = list(wperm) + [1.0] * (n - k3)
+        wr = [(w, h, b) for w, (h, b) in zip(W, rules)]
+        want = {x: ref_weight(wr, "S", V, Float, x) for x in strs}
+        g0 = gram.build(rules, Float, W, V=V)
+        for name, _ in xforms.transformations(g0):
+            if name.startswith("rename") and "X0" in name:
+                continue
+            g = gram.build(rules, Float, W, V=V)
+            try:
+                out = dict(xforms.transformations(g))[name]()
+            except CaseTimeout:
+                raise
+            except Exception as e:  # noqa: BLE001
+                fails.append(_fail(f"{name.split('(')[0]} preserves the weighted language (signed weights)", {"rules": case["rules"], "weights": W, "transformation": name}, f"EXC {type(e).__name__}: {e}", "grammar"))
+                continue
+            orules = rules_of(out)
+            for x in strs:
+                try:
+                    have = ref_weight(orules, out.S, out.V, Float, x, maxit=60)
+                except NoConvergence:
+                    have = "diverges"
+                evals += 1
+                if isinstance(have, str) or abs(have - want[x]) > 1e-9:
+                    fails.append(_fail(f"{name.split('(')[0]} preserves the weighted language (signed weights)", {"rules": case["rules"], "weights": W, "transformation": name, "x": list(x)}, have, want[x]))
+                    break
+    return {"evals": evals, "nontrivial": 1, "fails": fails, "counters": {"executions": evals}}
 
 
 def _run_single(case, var_of):
@@ -156,4 +206,4 @@ def run_chain(case):
 
 
 def run_case(case):
-    return {"single": run_single, "chain": run_chain}[case["mode"]](case)
+    return {"single": run_single, "chain": run_chain, "signed": run_signed}[case["mode"]](case)
